@@ -10,8 +10,8 @@ def fin : Char := Gen.C09.stripFinal
 
 /-- `12`, `-3` (an `int`) or `2.5`, `-0.25`, `7.0` (a `float`: digits with one `.`) -/
 def parseNum (s0 : String) : Option Num :=
-  -- `e3` an IntEnum member, `s3` an instance of an int subclass: both are ints with that value
-  let s := if s0.startsWith "e" || s0.startsWith "s" then (s0.drop 1).toString else s0
+  -- `e3` an IntEnum member, `s3` an instance of an int subclass, `b1` a bool: ints with that value
+  let s := if s0.startsWith "e" || s0.startsWith "s" || s0.startsWith "b" then (s0.drop 1).toString else s0
   match s.splitOn "." with
   | [_] => (parseInt s).map Num.int
   | [a, b] =>
@@ -32,7 +32,7 @@ def parseColor (t : String) : Option ColorSpec :=
   else if t = "o" then some .other
   else if t.startsWith "s:" then (parseCps (t.drop 2).toString).map .str
   else if t.startsWith "i:" then (parseInt (t.drop 2).toString).map .int
-  else if t.startsWith "ie:" || t.startsWith "is:" then (parseInt (t.drop 3).toString).map .int
+  else if t.startsWith "ie:" || t.startsWith "is:" || t.startsWith "ib:" then (parseInt (t.drop 3).toString).map .int
   else if t.startsWith "tn:" || t.startsWith "ts:" then (parseNumList (t.drop 3).toString).map .tuple
   else if t.startsWith "f:" then
     match parseNum (t.drop 2).toString with
@@ -239,32 +239,37 @@ object(s) as data; the driver renders **that value** (`renderText`: `C09.value_s
 value), it does not evaluate the operations. What the operations should have produced is C08's
 question; the model-evaluated variants (`chtm` / `histm` / `opsm`) are diagnostics only. -/
 
-/-- one chunk of a given value as the code's chunk object: `id:cps` (prefix/suffix of the formatter
-with that colour id) or `u=<prefix>=<suffix>:cps` (a chunk whose prefix/suffix pair no formatter of
-the line produced: rendered as it is) -/
-def parseGivenChunk (pal : Palette) (tok : String) : Option Sgr.Chunk :=
+/-- one chunk of a given value: `id:cps` (the formatter with that colour id) or
+`u=<prefix>=<suffix>:cps` (a chunk whose prefix/suffix pair no formatter of the line produced) -/
+def parseGiven (tok : String) : Option Given :=
   match tok.splitOn ":" with
   | [col, cps] =>
     match col.splitOn "=" with
     | ["u", p, q] =>
       match parseCps p, parseCps q, parseCps cps with
-      | some p, some q, some t => some ⟨p, t, q⟩
+      | some p, some q, some t => some (.raw p q t)
       | _, _, _ => none
     | [c] =>
       match c.toNat?, parseCps cps with
-      | some c, some t => (entry pal c).map fun e => ⟨e.1, t, e.2⟩
+      | some c, some t => some (.byId c t)
       | _, _ => none
     | _ => none
   | _ => none
 
-/-- one observation of a given value: `str plain strip <echo of the data>` -/
+/-- one observation of a given value: `str plain strip <echo of the data>`, computed by the model
+functions `renderGiven` / `givenChunks` (`C09.given_shows`); a raw chunk that fails the
+well-formedness test `rawOk` is refused (`ill-formed-chunk`) -/
 def showGiven (pal : Palette) (tok : String) : String :=
-  let chunks := if tok = "_" then some [] else (tok.splitOn "/").mapM (parseGivenChunk pal)
-  match chunks with
-  | none => "bad-pal"
-  | some cs =>
-    let s := render cs
-    showCps s ++ " " ++ showCps (plain cs) ++ " " ++ showCps (strip cls fin s) ++ " " ++ tok
+  let gs := if tok = "_" then some [] else (tok.splitOn "/").mapM parseGiven
+  match gs with
+  | none => "bad-op"
+  | some gs =>
+    if !gs.all Given.ok then "ill-formed-chunk"
+    else
+      match renderGiven pal gs, givenChunks pal gs with
+      | some s, some cs =>
+        showCps s ++ " " ++ showCps (plain cs) ++ " " ++ showCps (strip cls fin s) ++ " " ++ tok
+      | _, _ => "bad-pal"
 
 /-- the data tokens after `@`: `E:<Name>` = the real operations raised -/
 def showData (pal : Palette) (data : List String) : String :=
